@@ -469,6 +469,14 @@ theorem parse_of_written_document (bcfg : Cfg) (acfg : ACfg) (hc : CfgOK bcfg) (
   rw [adapterBuild_congr bcfg acfg hc _ _ (callbacks_of_written_document P hP acfg.isVoid c ds hw).1]
   exact emit_build bcfg acfg hc ds (withDerivedPos acfg.isVoid c ds) hr hs
 
+/-- **the derived positions are the positions of the `<`.** Whenever `derivedPos` finds the start tag of the element at
+    path `p` at offset `o` of the written text, the text has a `<` there and the position is the 1-based line / 0-based
+    column of `o`. -/
+theorem derived_positions_are_lt_offsets (iv : Name → Bool) (c : Choices) (ds : List WDoc) (p : Path) (o : Nat)
+    (h : offsetOf p 0 (wtoksL iv c [] 0 ds) = some o) :
+    (writeText iv c ds)[o]? = some 60 ∧ (withDerivedPos iv c ds).pos p = BS.SourcePos.lineCol (writeText iv c ds) o :=
+  derived_offset_lt iv c ds p o h
+
 /-! non-vacuity: the sample document of `emit_build`, written out and tokenized -/
 
 /-- concrete parameters satisfying `ParamsOK`: ASCII lower-casing, and the inverse of the writer's attribute escaping -/
@@ -484,6 +492,7 @@ example : writeText xA.isVoid xC xDoc =
 /-- positions read off the text: `<p` at offset 15, the first `<br` at 34, `<pre>` at 80 (still line 1) -/
 example : (withDerivedPos xA.isVoid xC xDoc).pos [1] = (1, 15) ∧ (withDerivedPos xA.isVoid xC xDoc).pos [1, 1] = (1, 34) ∧
     (withDerivedPos xA.isVoid xC xDoc).pos [2] = (1, 80) := by decide
+example : offsetOf [1, 1] 0 (wtoksL xA.isVoid xC [] 0 xDoc) = some 34 := by decide
 /-- the model tokenizer on that text: 17 callbacks, no error, nothing left -/
 example : (BS.Tokenizer.callbacks (BS.Tokenizer.run xP (writeText xA.isVoid xC xDoc))).length = 17 ∧
     (BS.Tokenizer.run xP (writeText xA.isVoid xC xDoc)).flag = .ok := by decide
